@@ -67,7 +67,7 @@ func C07(c *run.Check) {
 	pairF := mustParse([]string{"concat($s,$t)", "starts-with($s,$t)", "contains($s,$t)", "substring-before($s,$t)", "substring-after($s,$t)", "concat($s,'|',$t)", "string-length(concat($s,$t))"})
 	n := len(strs)
 	run.ParallelW(n*n, func(w, i int) {
-		if !triage && c.Violations() > 0 {
+		if (!triage && c.Violations() > 0) || c.TimeUp() {
 			return
 		}
 		s, t := strVar("s", strs[i/n]), strVar("t", strs[i%n])
@@ -108,7 +108,7 @@ func C07(c *run.Check) {
 		return ""
 	}
 	run.ParallelW(len(sjobs), func(w, i int) {
-		if !triage && c.Violations() > 0 {
+		if (!triage && c.Violations() > 0) || c.TimeUp() {
 			return
 		}
 		j := sjobs[i]
@@ -134,7 +134,7 @@ func C07(c *run.Check) {
 	tr := mustParse([]string{"translate($s,$f,$t)"})[0]
 	m := len(trFT)
 	run.ParallelW(len(trS)*m*m, func(w, i int) {
-		if !triage && c.Violations() > 0 {
+		if (!triage && c.Violations() > 0) || c.TimeUp() {
 			return
 		}
 		c.Evaluations.Add(1)
@@ -151,7 +151,7 @@ func C07(c *run.Check) {
 	nsStrs := c07Strings(nsAlpha, nsLen)
 	single := mustParse([]string{"normalize-space($s)", "string-length($s)", "string-length(normalize-space($s))"})
 	run.ParallelW(len(nsStrs), func(w, i int) {
-		if !triage && c.Violations() > 0 {
+		if (!triage && c.Violations() > 0) || c.TimeUp() {
 			return
 		}
 		for _, e := range single {
